@@ -909,6 +909,8 @@ func c17FanOut(p *core.Prog, r *core.Report, la *core.LockAnalysis) {
 				held  bool
 			}
 			var accs []acc
+			// mutex parameters of callees inside the instance that are handed a lock from outside the instance
+			sharedLockParam := map[string]bool{}
 			var scan func(fn *ssa.Function, root ssa.Value, depth int, entryHeld bool)
 			scan = func(fn *ssa.Function, root ssa.Value, depth int, entryHeld bool) {
 				held := la.HeldAt(fn)
@@ -929,7 +931,10 @@ func c17FanOut(p *core.Prog, r *core.Report, la *core.LockAnalysis) {
 								}
 								return false
 							}
-							return strings.TrimPrefix(o, pre) == core.FnKey(b.fn)
+							if strings.TrimPrefix(o, pre) == core.FnKey(b.fn) {
+								return true
+							}
+							return pre == "param:" && sharedLockParam[o+"|"+l.Field.Name]
 						}
 					}
 					return true
@@ -937,6 +942,14 @@ func c17FanOut(p *core.Prog, r *core.Report, la *core.LockAnalysis) {
 				isHeld := func(in ssa.Instruction) bool {
 					if entryHeld {
 						return true
+					}
+					if os.Getenv("VCHECK_DEBUG17E") != "" {
+						for l := range held[in] {
+							fmt.Fprintf(os.Stderr, "17e: %s in %s holds %s.%s shared=%v\n", p.Pos(in.Pos()), core.FnKey(fn), l.Field.Owner, l.Field.Name, sharedLock(l))
+						}
+						if len(held[in]) == 0 {
+							fmt.Fprintf(os.Stderr, "17e: %s in %s holds nothing\n", p.Pos(in.Pos()), core.FnKey(fn))
+						}
 					}
 					for l := range held[in] {
 						if sharedLock(l) {
@@ -977,6 +990,26 @@ func c17FanOut(p *core.Prog, r *core.Report, la *core.LockAnalysis) {
 						callee := x.Call.StaticCallee()
 						if callee == nil || len(callee.Blocks) == 0 {
 							return
+						}
+						// a mutex handed on to the callee: shared if it is not one the instance made itself
+						for i, a := range x.Call.Args {
+							if i >= len(callee.Params) || !strings.HasSuffix(a.Type().String(), "Mutex") {
+								continue
+							}
+							own := false
+							if al, isAlloc := a.(*ssa.Alloc); isAlloc {
+								for cur := al.Parent(); cur != nil; cur = cur.Parent() {
+									if cur == b.fn {
+										own = true // declared in the fan-out body or below it
+									}
+								}
+							}
+							if prm, isParam := a.(*ssa.Parameter); isParam && prm.Parent() != b.fn && !sharedLockParam["param:"+core.FnKey(prm.Parent())+"|"+prm.Name()] {
+								own = true // handed down from a callee level that got it from inside
+							}
+							if !own {
+								sharedLockParam["param:"+core.FnKey(callee)+"|"+callee.Params[i].Name()] = true
+							}
 						}
 						for i, a := range x.Call.Args {
 							if i < len(callee.Params) && pointerLike(a.Type()) && derivesFrom(a, root, map[ssa.Value]bool{}) {
